@@ -45,3 +45,44 @@ let () =
   reg "parsehdr" (function [h] ->
       let ((((((a, b), c), d), e), f), g) = parse_header (bytes_arg h) in
       String.concat "," (List.map string_of_z [a; b; c; d; e; f; g]) | _ -> "badargs")
+
+(* ---- whole API scripts on the connection model ----
+   wsrun <fire><skip> <script> <keys> <ops>
+   script: D<hex>,T,R  ("." empty)   keys: hex,hex ("." none)
+   ops: rf | rd0 | rd1 | rv | s<op>:<hex> | pi:<hex> | po:<hex> | sc:<status>:<hex> | cl:<status>:<hex> | sh *)
+let ev_arg s =
+  if s = "T" then Timeout else if s = "R" then Reset
+  else Data (bytes_arg (String.sub s 1 (String.length s - 1)))
+let list_arg f s = if s = "." then [] else List.map f (String.split_on_char ',' s)
+let op_arg s =
+  match String.split_on_char ':' s with
+  | ["rf"] -> OpRecvFrame | ["rd0"] -> OpRecvDataFrame false | ["rd1"] -> OpRecvDataFrame true
+  | ["rv"] -> OpRecv | ["sh"] -> OpShutdown
+  | ["pi"; h] -> OpPing (bytes_arg h) | ["po"; h] -> OpPong (bytes_arg h)
+  | ["sc"; st; h] -> OpSendClose (z_of_string st, bytes_arg h)
+  | ["cl"; st; h] -> OpClose (z_of_string st, bytes_arg h)
+  | [sop; h] when String.length sop > 1 && sop.[0] = 's' ->
+      OpSend (z_of_string (String.sub sop 1 (String.length sop - 1)), bytes_arg h)
+  | _ -> failwith ("bad op " ^ s)
+let frame_obs (a : abnf) = Printf.sprintf "f%s%s:%s" (string_of_z a.a_fin) (string_of_z a.a_opcode) (digest_of_bytes a.a_data)
+let res_obs = function
+  | RFrame a -> "ok:" ^ frame_obs a
+  | RData (op, a) -> "ok:" ^ string_of_z op ^ ":" ^ frame_obs a
+  | RRecv (k, d) -> "ok:" ^ (match int_of_z k with 1 -> "t:" | 2 -> "b:" | _ -> "e:") ^ digest_of_bytes d
+  | RInt n -> "ok:" ^ string_of_z n
+  | RUnit -> "ok:none"
+  | RExn e -> "raise:" ^ exn_name e
+let io_obs = function
+  | IRead n -> "r" ^ string_of_z n | IWrite b -> "w" ^ digest_of_bytes b
+  | IClose -> "c" | IShutdown -> "h" | ISetTimeout -> "t"
+
+let () =
+  reg "wsrun" (function [flags; script; keys; ops] ->
+      let fire = flags.[0] = '1' and skip = flags.[1] = '1' in
+      let x = { inbox = list_arg ev_arg script; iolog = [] } in
+      let w = ws_init x (list_arg bytes_arg keys) fire skip in
+      let (rs, w') = run_ops w (list_arg op_arg ops) in
+      String.concat "|" (List.map res_obs rs)
+      ^ ";conn=" ^ b2s w'.connected ^ ";sock=" ^ (match w'.sock with Some _ -> "1" | None -> "0")
+      ^ ";io=" ^ String.concat "," (List.map io_obs (all_io w'))
+    | _ -> "badargs")
